@@ -6,6 +6,8 @@ from fractions import Fraction
 
 import numpy as np
 
+from .. import shapes as S
+
 from ..core import fmt, fmt_list, fmt_ints, fmt_opt, parse_rats, frac, err_kind, close, exact, floats
 
 ID = "C17"
@@ -121,7 +123,7 @@ def run_impl(c):
     from traffic_weaver.interval import IntervalArray
     from traffic_weaver.process import average
     k, n = c["kind"], c["n"]
-    a = np.array(floats(A(c)), dtype=float)
+    a = S.arr(floats(A(c)), dtype=float)
     try:
         if k == "oversample":
             f = sau.oversample_linspace if c["sub"] == "lin" else sau.oversample_piecewise_constant
@@ -133,10 +135,10 @@ def run_impl(c):
         if k == "extendconst":
             return {"ok": lst(sau.extend_constant(a, n, direction=c["dir"]))}
         if k == "appendone":
-            x, y = sau.append_one_sample(np.array(floats(A(c, "x"))), a, make_periodic=c["periodic"])
+            x, y = sau.append_one_sample(S.arr(floats(A(c, "x"))), a, make_periodic=c["periodic"])
             return {"ok": [lst(x), lst(y)]}
         if k == "integral":
-            return {"ok": lst(sau.integral(np.array(floats(A(c, "x"))), a, c["rule"]))}
+            return {"ok": lst(sau.integral(S.arr(floats(A(c, "x"))), a, c["rule"]))}
         if k == "sumidx":
             return {"ok": lst(sau.sum_over_indices(a, np.array(c["idx"], dtype=int)))}
         if k == "iaget":
@@ -163,10 +165,10 @@ def run_impl(c):
             import warnings
             with warnings.catch_warnings():
                 warnings.simplefilter("ignore")
-                x, y = average(np.array(floats(A(c, "x"))), a, n)
+                x, y = average(S.arr(floats(A(c, "x"))), a, n)
             return {"ok": [lst(x), lst(y)]}
         if k == "roundtrip":
-            x = np.array(floats(A(c, "x")))
+            x = S.arr(floats(A(c, "x")))
             xs = sau.oversample_linspace(x, n)
             ys = sau.oversample_piecewise_constant(a, n)
             ax, ay = average(xs, ys, n)
